@@ -230,9 +230,9 @@ class _Expr(ast.NodeTransformer):
 
     def visit_Compare(self, n):
         self.generic_visit(n)
-        # N16  x in (a, b) -> x == a or x == b   (literal tuple/list of at most four call-free elements)
+        # N16  x in (a, b) -> x == a or x == b   (literal tuple/list of at most eight call-free elements)
         if len(n.ops) == 1 and isinstance(n.ops[0], (ast.In, ast.NotIn)) and isinstance(n.comparators[0], (ast.Tuple, ast.List)) \
-                and 1 <= len(n.comparators[0].elts) <= 4 and _pure(n.left) and all(_pure(e) for e in n.comparators[0].elts):
+                and 1 <= len(n.comparators[0].elts) <= 8 and _pure(n.left) and all(_pure(e) for e in n.comparators[0].elts):
             pos = isinstance(n.ops[0], ast.In)
             vals = [self.visit_Compare(ast.copy_location(ast.Compare(left=n.left, ops=[ast.Eq() if pos else ast.NotEq()], comparators=[e]), n))
                     for e in n.comparators[0].elts]
@@ -391,6 +391,75 @@ class Canon(object):
                     return False
         return None
 
+    def _seq_literal(self, e, depth=0):
+        """the elements of a literal sequence expression: a tuple / list display of call-free elements, a `+` of such, or a local of the
+        current function that is bound exactly once (outside loops) to such an expression and otherwise only iterated over / concatenated"""
+        if depth > 3:
+            return None
+        if isinstance(e, (ast.Tuple, ast.List)):
+            if all(_pure(x) and not isinstance(x, ast.Starred) for x in e.elts):
+                return list(e.elts)
+            return None
+        if isinstance(e, ast.BinOp) and isinstance(e.op, ast.Add):
+            l_, r_ = self._seq_literal(e.left, depth + 1), self._seq_literal(e.right, depth + 1)
+            return None if l_ is None or r_ is None else l_ + r_
+        if isinstance(e, ast.Name) and self.fns:
+            fn = self.fns[-1]
+            if e.id in [a.arg for a in fn.args.args + fn.args.kwonlyargs]:
+                return None
+            defs = [n for n in ast.walk(fn) if isinstance(n, ast.Name) and n.id == e.id and isinstance(n.ctx, (ast.Store, ast.Del))]
+            if len(defs) != 1:
+                return None
+            asg = [n for n in ast.walk(fn) if isinstance(n, ast.Assign) and len(n.targets) == 1 and n.targets[0] is defs[0]]
+            if not asg or any(isinstance(p_, (ast.For, ast.While, ast.AsyncFor)) for p_ in _parents(fn, asg[0])):
+                return None
+            par = {}
+            for n in ast.walk(fn):
+                for ch in ast.iter_child_nodes(n):
+                    par[id(ch)] = n
+            for n in ast.walk(fn):
+                if isinstance(n, ast.Name) and n.id == e.id and isinstance(n.ctx, ast.Load):
+                    p = par.get(id(n))
+                    if not ((isinstance(p, (ast.For, ast.AsyncFor)) and p.iter is n) or (isinstance(p, ast.BinOp) and isinstance(p.op, ast.Add))
+                            or (isinstance(p, ast.Tuple) and isinstance(par.get(id(p)), (ast.Tuple, ast.For)))):
+                        return None
+            return self._seq_literal(asg[0].value, depth + 1)
+        return None
+
+    def _read_first(self, stmt, name_node):
+        """is *name_node* evaluated in *stmt* before any call / await / yield is made (so that reading an attribute chain there instead of
+        just before the statement gives the same value)?  Simple statements: everything evaluated before the name must be call-free.
+        `if <call-free test>: S1 ...`: the name may sit in S1 (or the first statement of the else branch)."""
+        def before_ok(expr_root):
+            # evaluation order approximated by source order: every call / await that STARTS before the name ends must contain the name
+            # among its own arguments' prefix ... keep it simple: no call / await node ends before the name, and the calls that enclose the
+            # name have a call-free function expression and call-free arguments before the one holding the name
+            for n in ast.walk(expr_root):
+                if isinstance(n, (ast.Call, ast.Await, ast.Yield, ast.YieldFrom, ast.NamedExpr)) and not any(x is name_node for x in ast.walk(n)):
+                    if (n.lineno, n.col_offset) < (name_node.lineno, name_node.col_offset):
+                        return False
+                if isinstance(n, ast.Call) and any(x is name_node for x in ast.walk(n)):
+                    if not _pure(n.func) and not any(x is name_node for x in ast.walk(n.func)):
+                        return False
+            return True
+        if isinstance(stmt, (ast.Expr, ast.Assign, ast.AugAssign, ast.Return)):
+            if isinstance(stmt, ast.AugAssign):
+                return False
+            if isinstance(stmt, ast.Assign) and any(any(x is name_node for x in ast.walk(t)) for t in stmt.targets):
+                return False
+            if isinstance(stmt, ast.Assign) and not all(_pure(t) for t in stmt.targets):
+                return False
+            return stmt.value is not None and before_ok(stmt.value)
+        if isinstance(stmt, ast.If):
+            if any(x is name_node for x in ast.walk(stmt.test)):
+                return before_ok(stmt.test)
+            if not _pure(stmt.test):
+                return False
+            for arm in (stmt.body, stmt.orelse):
+                if arm and any(x is name_node for x in ast.walk(arm[0])):
+                    return self._read_first(arm[0], name_node)
+        return False
+
     def thread(self, body):
         """N38  <if/else whose branches end by binding x> ; if x is [not] None: B [else: C]   ->   the second test moves into the branches of
         the first and is decided there where the binding says so (x = None / x = <a call that never yields None>).  This is how a
@@ -427,7 +496,8 @@ class Canon(object):
         return out
 
     def dead_stores(self, fn):
-        """N39  `x = <constant>` where x is never read anywhere in the function (left over when a None-protocol was threaded away)"""
+        """N39  `x = <constant / name / attribute chain>` where x is never read anywhere in the function (left over when a None-protocol was
+        threaded away, or the unused half of an inlined helper's result)"""
         if any(isinstance(n, (ast.Global, ast.Nonlocal, ast.ClassDef)) for n in ast.walk(fn)):
             return 0
         if any(isinstance(n, ast.Call) and isinstance(n.func, ast.Name) and n.func.id in ('locals', 'vars', 'eval', 'exec') for n in ast.walk(fn)):
@@ -439,8 +509,15 @@ class Canon(object):
             res = []
             for st in stmts:
                 if isinstance(st, ast.Assign) and len(st.targets) == 1 and isinstance(st.targets[0], ast.Name) and st.targets[0].id not in loads \
-                        and isinstance(st.value, ast.Constant):
+                        and (isinstance(st.value, (ast.Constant, ast.Name)) or _chain(st.value) or
+                             (isinstance(st.value, (ast.Dict, ast.Tuple, ast.List)) and _pure(st.value))):
                     hit[0] += 1
+                    continue
+                if isinstance(st, ast.Assign) and len(st.targets) == 1 and isinstance(st.targets[0], ast.Name) and st.targets[0].id not in loads \
+                        and isinstance(st.value, (ast.Call, ast.Await)):
+                    # the result of a call that nobody reads: only the call remains
+                    hit[0] += 1
+                    res.append(ast.copy_location(ast.Expr(value=st.value), st))
                     continue
                 for f_ in ('body', 'orelse', 'finalbody'):
                     v = getattr(st, f_, None)
@@ -556,7 +633,8 @@ class Canon(object):
         defs, bad = {}, set()
         for n in ast.walk(fn):
             if isinstance(n, ast.Assign) and len(n.targets) == 1 and isinstance(n.targets[0], ast.Name):
-                if _chain(n.value) and not (isinstance(n.value, ast.Name) and n.value.id == n.targets[0].id):
+                if (_chain(n.value) or getattr(n, '_inl', False)) and not (isinstance(n.value, ast.Name) and n.value.id == n.targets[0].id) \
+                        and not any(isinstance(x, ast.Name) and x.id == n.targets[0].id for x in ast.walk(n.value)):
                     defs.setdefault(n.targets[0].id, []).append(n)
                 else:
                     bad.add(n.targets[0].id)
@@ -683,6 +761,147 @@ class Canon(object):
                 return n
         T().visit(fn)
 
+    def fold_frozen_dicts(self, fn):
+        """N46  a local bound once to a dict literal with constant keys and call-free values, and afterwards only read (D[k], k in D,
+        iteration, sorted(D), D.keys()): a lookup table.  `D[<constant>]` becomes the value, `D[x]` under a guarding `x == <constant>` too,
+        `x in D` becomes `x in (k1, .., kn)`, `for x in D / sorted(D)` iterates the literal keys (and is then unrolled by N31).  This is
+        how an if-chain that was turned into a table reads like the if-chain again."""
+        if any(isinstance(n, (ast.Lambda, ast.ClassDef, ast.Global, ast.Nonlocal)) for n in ast.walk(fn)):
+            return
+        if any(isinstance(n, (ast.FunctionDef, ast.AsyncFunctionDef)) for n in ast.walk(fn) if n is not fn):
+            return
+        stores = {}
+        for n in ast.walk(fn):
+            if isinstance(n, ast.Name) and isinstance(n.ctx, (ast.Store, ast.Del)):
+                stores[n.id] = stores.get(n.id, 0) + 1
+        params = set(a.arg for a in fn.args.args + fn.args.kwonlyargs + fn.args.posonlyargs)
+        tables = {}
+        for n in ast.walk(fn):
+            if isinstance(n, ast.Assign) and len(n.targets) == 1 and isinstance(n.targets[0], ast.Name) and isinstance(n.value, ast.Dict) \
+                    and stores.get(n.targets[0].id) == 1 and n.targets[0].id not in params and 1 <= len(n.value.keys) <= 8 \
+                    and all(isinstance(k, ast.Constant) and isinstance(k.value, (int, str, bytes)) for k in n.value.keys) \
+                    and all(_pure(v) for v in n.value.values) and len(set(k.value for k in n.value.keys)) == len(n.value.keys) \
+                    and not any(isinstance(p_, (ast.For, ast.While, ast.AsyncFor)) for p_ in _parents(fn, n)):
+                tables[n.targets[0].id] = n
+        if not tables:
+            return
+        # every read of the table must be one of the understood forms
+        par = {}
+        for n in ast.walk(fn):
+            for ch in ast.iter_child_nodes(n):
+                par[id(ch)] = n
+        for name in list(tables):
+            d = tables[name]
+            vnames = set(x.id for v in d.value.values for x in ast.walk(v) if isinstance(x, ast.Name))
+            if any(stores.get(v, 0) > (0 if v in params else 1) for v in vnames):
+                del tables[name]          # a value that is re-bound later would be read too late
+                continue
+            ok = True
+            for n in ast.walk(fn):
+                if isinstance(n, ast.Name) and n.id == name and isinstance(n.ctx, ast.Load):
+                    p = par.get(id(n))
+                    if isinstance(p, ast.Subscript) and p.value is n and isinstance(p.ctx, ast.Load):
+                        continue
+                    if isinstance(p, ast.Compare) and len(p.ops) == 1 and isinstance(p.ops[0], (ast.In, ast.NotIn)) and p.comparators[0] is n:
+                        continue
+                    if isinstance(p, (ast.For, ast.AsyncFor)) and p.iter is n:
+                        continue
+                    if isinstance(p, ast.Call) and isinstance(p.func, ast.Name) and p.func.id == 'sorted' and p.args == [n] and not p.keywords:
+                        continue
+                    if isinstance(p, ast.Attribute) and p.attr == 'keys' and isinstance(par.get(id(p)), ast.Call):
+                        continue
+                    ok = False
+            if not ok:
+                del tables[name]
+        if not tables:
+            return
+        canon = self
+
+        def keys_tuple(name, at, srt):
+            ks = list(tables[name].value.keys)
+            if srt:
+                try:
+                    ks = sorted(ks, key=lambda k: k.value)
+                except TypeError:
+                    return None
+            return ast.copy_location(ast.Tuple(elts=[copy.deepcopy(k) for k in ks], ctx=ast.Load()), at)
+
+        def lookup(name, key):
+            for k, v in zip(tables[name].value.keys, tables[name].value.values):
+                if type(k.value) is type(key) and k.value == key:
+                    return copy.deepcopy(v)
+            return None
+
+        class T(ast.NodeTransformer):
+            def __init__(self_):
+                self_.known = {}
+
+            def visit_Subscript(self_, n):
+                self_.generic_visit(n)
+                if isinstance(n.value, ast.Name) and n.value.id in tables and isinstance(n.ctx, ast.Load):
+                    key = n.slice
+                    if isinstance(key, ast.Name) and key.id in self_.known:
+                        key = self_.known[key.id]
+                    if isinstance(key, ast.Constant):
+                        v = lookup(n.value.id, key.value)
+                        if v is not None:
+                            canon.hit('N46')
+                            return ast.copy_location(v, n)
+                return n
+
+            def visit_Compare(self_, n):
+                self_.generic_visit(n)
+                if len(n.ops) == 1 and isinstance(n.ops[0], (ast.In, ast.NotIn)) and isinstance(n.comparators[0], ast.Name) and n.comparators[0].id in tables:
+                    kt = keys_tuple(n.comparators[0].id, n, False)
+                    canon.hit('N46')
+                    return canon.ex.visit(ast.copy_location(ast.Compare(left=n.left, ops=n.ops, comparators=[kt]), n))
+                return n
+
+            def visit_Call(self_, n):
+                self_.generic_visit(n)
+                if isinstance(n.func, ast.Name) and n.func.id == 'sorted' and len(n.args) == 1 and not n.keywords and isinstance(n.args[0], ast.Name) and n.args[0].id in tables:
+                    kt = keys_tuple(n.args[0].id, n, True)
+                    if kt is not None:
+                        canon.hit('N46')
+                        return kt
+                if isinstance(n.func, ast.Attribute) and n.func.attr == 'keys' and isinstance(n.func.value, ast.Name) and n.func.value.id in tables and not n.args:
+                    canon.hit('N46')
+                    return keys_tuple(n.func.value.id, n, False)
+                return n
+
+            def visit_For(self_, n):
+                if isinstance(n.iter, ast.Name) and n.iter.id in tables:
+                    n.iter = keys_tuple(n.iter.id, n, False)
+                    canon.hit('N46')
+                return self_.generic_visit(n)
+
+            def visit_If(self_, n):
+                n.test = self_.visit(n.test)
+                # `if x == <constant>` (also as a conjunct): x is that constant in the body, until x is bound again
+                eqs = {}
+                conj = n.test.values if isinstance(n.test, ast.BoolOp) and isinstance(n.test.op, ast.And) else [n.test]
+                for c_ in conj:
+                    if isinstance(c_, ast.Compare) and len(c_.ops) == 1 and isinstance(c_.ops[0], ast.Eq):
+                        a, b = c_.left, c_.comparators[0]
+                        if isinstance(a, ast.Name) and isinstance(b, ast.Constant):
+                            eqs[a.id] = b
+                        elif isinstance(b, ast.Name) and isinstance(a, ast.Constant):
+                            eqs[b.id] = a
+                saved = dict(self_.known)
+                self_.known.update(eqs)
+                nb = []
+                for st in n.body:
+                    nb.append(self_.visit(st))
+                    for x in ast.walk(st):
+                        if isinstance(x, ast.Name) and isinstance(x.ctx, (ast.Store, ast.Del)):
+                            self_.known.pop(x.id, None)
+                n.body = nb
+                self_.known = dict(saved)
+                n.orelse = [self_.visit(st) for st in n.orelse]
+                self_.known = saved
+                return n
+        T().visit(fn)
+
     def method_aliases(self, fn):
         """N43  m = obj.attr.method  (bound once, not a parameter, every read of m is the function position of a call)   ->   the calls are
         written obj.attr.method(...).  A helper that is handed the bound method to call reads like this after inlining."""
@@ -733,12 +952,13 @@ class Canon(object):
         for fn in ast.walk(tree):
             if isinstance(fn, (ast.FunctionDef, ast.AsyncFunctionDef)):
                 self.method_aliases(fn)
+                self.fold_frozen_dicts(fn)
                 self.fold_sentinels(fn)
                 self.split_webs(fn)
                 self.propagate(fn)
         tree.body = self.block(tree.body)
         n39 = 0
-        if self.count.get('N38'):
+        if True:
             for fn in ast.walk(tree):
                 if isinstance(fn, (ast.FunctionDef, ast.AsyncFunctionDef)):
                     n39 += self.dead_stores(fn)
@@ -823,27 +1043,32 @@ class Canon(object):
                 s = ast.copy_location(ast.While(test=ast.copy_location(ast.Constant(value=True), s), body=[brk] + s.body, orelse=[]), s)
                 self.hit('N21')
             # N31 for x in (<2..6 literal, call-free elements>): B   ->   B[x:=e1] ; B[x:=e2] ; ...   (B does not assign x, no break / continue / else)
-            if isinstance(s, ast.For) and not s.orelse and isinstance(s.target, ast.Name) and isinstance(s.iter, (ast.Tuple, ast.List)) \
-                    and 2 <= len(s.iter.elts) <= 6 and all(_pure(e) and not isinstance(e, ast.Starred) for e in s.iter.elts) \
-                    and not any(isinstance(x, (ast.Break, ast.Continue, ast.FunctionDef, ast.AsyncFunctionDef, ast.Lambda)) for b in s.body for x in ast.walk(b)) \
-                    and not any(isinstance(x, ast.Name) and x.id == s.target.id and isinstance(x.ctx, (ast.Store, ast.Del)) for b in s.body for x in ast.walk(b)):
-                var = s.target.id
+            #     also `for a, b in ((a1, b1), (a2, b2))`, and a sequence given by a local that is bound once to such a literal (or a `+` of them)
+            if isinstance(s, ast.For) and not s.orelse:
+                elts = self._seq_literal(s.iter)
+                tnames = [s.target.id] if isinstance(s.target, ast.Name) else \
+                    ([t.id for t in s.target.elts] if isinstance(s.target, ast.Tuple) and all(isinstance(t, ast.Name) for t in s.target.elts) else None)
+                if elts is not None and tnames and 1 <= len(elts) <= 6 and (isinstance(s.target, ast.Name) or
+                                                                           all(isinstance(e, (ast.Tuple, ast.List)) and len(e.elts) == len(tnames) for e in elts)) \
+                        and (len(elts) >= 2 or not isinstance(s.iter, (ast.Tuple, ast.List)) or isinstance(s.target, ast.Tuple)) \
+                        and not any(isinstance(x, (ast.Break, ast.Continue, ast.FunctionDef, ast.AsyncFunctionDef, ast.Lambda)) for b in s.body for x in ast.walk(b)) \
+                        and not any(isinstance(x, ast.Name) and x.id in tnames and isinstance(x.ctx, (ast.Store, ast.Del)) for b in s.body for x in ast.walk(b)):
+                    class _S(ast.NodeTransformer):
+                        def __init__(self, m):
+                            self.m = m
 
-                class _S(ast.NodeTransformer):
-                    def __init__(self, e):
-                        self.e = e
-
-                    def visit_Name(self, n):
-                        if n.id == var and isinstance(n.ctx, ast.Load):
-                            return copy.deepcopy(self.e)
-                        return n
-                unrolled = []
-                for e in s.iter.elts:
-                    for b in s.body:
-                        unrolled.append(self.ex.visit(_S(e).visit(copy.deepcopy(b))))
-                out.extend(self.expand(unrolled))
-                self.hit('N31')
-                continue
+                        def visit_Name(self, n):
+                            if n.id in self.m and isinstance(n.ctx, ast.Load):
+                                return copy.deepcopy(self.m[n.id])
+                            return n
+                    unrolled = []
+                    for e in elts:
+                        m = {tnames[0]: e} if isinstance(s.target, ast.Name) else dict(zip(tnames, e.elts))
+                        for b in s.body:
+                            unrolled.append(self.ex.visit(_S(m).visit(copy.deepcopy(b))))
+                    out.extend(self.expand(unrolled))
+                    self.hit('N31')
+                    continue
             # N36 x = min(x, E) / x = min(E, x)  ->  if E < x: x = E      (max: if x < E: x = E);  E call-free apart from len()
             if isinstance(s, ast.Assign) and len(s.targets) == 1 and isinstance(s.targets[0], ast.Name) and isinstance(s.value, ast.Call) \
                     and isinstance(s.value.func, ast.Name) and s.value.func.id in ('min', 'max') and len(s.value.args) == 2 and not s.value.keywords:
@@ -870,6 +1095,29 @@ class Canon(object):
                     out.extend(self.expand([ast.copy_location(ast.If(test=v, body=[copy.deepcopy(s.body[0])], orelse=[]), s)]))
                 self.hit('N12')
                 continue
+            # N12b  if x == c1 or x == c2 or ...: <block that reads TABLE[x] and ends in raise / return>   ->   one `if x == ci:` per constant
+            #       (the table lookup is then decided by N46)
+            if isinstance(s, ast.If) and not s.orelse and isinstance(s.test, ast.BoolOp) and isinstance(s.test.op, ast.Or) and terminates(s.body) \
+                    and len(s.test.values) <= 8 and _size(s.body) <= 40:
+                vs = s.test.values
+                names = set()
+                for v in vs:
+                    if isinstance(v, ast.Compare) and len(v.ops) == 1 and isinstance(v.ops[0], ast.Eq):
+                        a_, b_ = v.left, v.comparators[0]
+                        if isinstance(a_, ast.Constant) and isinstance(b_, ast.Name):
+                            names.add(b_.id)
+                            continue
+                        if isinstance(b_, ast.Constant) and isinstance(a_, ast.Name):
+                            names.add(a_.id)
+                            continue
+                    names.add(None)
+                if len(names) == 1 and None not in names:
+                    x = list(names)[0]
+                    if any(isinstance(n, ast.Subscript) and isinstance(n.slice, ast.Name) and n.slice.id == x and isinstance(n.value, ast.Name) for b in s.body for n in ast.walk(b)):
+                        for v in vs:
+                            out.append(ast.copy_location(ast.If(test=v, body=[copy.deepcopy(b) for b in s.body], orelse=[]), s))
+                        self.hit('N12')
+                        continue
             out.append(s)
         return out
 
@@ -1033,10 +1281,37 @@ class Canon(object):
                 idx = [i for i, a_ in enumerate(s.value.args) if isinstance(a_, ast.Name) and a_.id == t]
                 import re as _re
                 made = _re.search(r'__\w+?\d+_*$', t) or _re.match(r'_v\d+$', t)          # a name the inliner made up (hand-written temporaries are left alone)
-                if made and len(uses) == 2 and len(idx) == 1 and all(_pure(a_) for a_ in s.value.args[:idx[0]]):
+                if (made or getattr(res[-1], '_inl', False)) and len(uses) == 2 and len(idx) == 1 and all(_pure(a_) for a_ in s.value.args[:idx[0]]):
                     a = res.pop()
                     s.value.args[idx[0]] = a.value
                     self.hit('N41')
+            res.append(s)
+        out = res
+        # N44  t = obj.attr.chain (or, for a binding the inliner made up, a call-free arithmetic / subscript expression) ; <statement that reads t once, before it
+        #      makes any call>   ->   read in place
+        #      (t bound once and read once in the whole function; also through the call-free test of an `if` into the first statement of a branch)
+        res = []
+        for s in out:
+            if res and self.fns and isinstance(res[-1], ast.Assign) and len(res[-1].targets) == 1 and isinstance(res[-1].targets[0], ast.Name) \
+                    and (_chain(res[-1].value) or (getattr(res[-1], '_inl', False) and isinstance(res[-1].value, (ast.BinOp, ast.UnaryOp, ast.Subscript, ast.Compare))
+                                                   and _pure(res[-1].value))) \
+                    and not isinstance(s, (ast.FunctionDef, ast.AsyncFunctionDef, ast.ClassDef)):
+                t = res[-1].targets[0].id
+                uses = [n for n in ast.walk(self.fns[-1]) if isinstance(n, ast.Name) and n.id == t]
+                here = [n for n in ast.walk(s) if isinstance(n, ast.Name) and n.id == t and isinstance(n.ctx, ast.Load)]
+                roots = set(n.id for n in ast.walk(res[-1].value) if isinstance(n, ast.Name))
+                rebound = any(isinstance(n, ast.Name) and n.id in roots and isinstance(n.ctx, ast.Store) for n in ast.walk(s))
+                if len(uses) == 2 and len(here) == 1 and not rebound and self._read_first(s, here[0]):
+                    a = res.pop()
+                    val = a.value
+
+                    class _R(ast.NodeTransformer):
+                        def visit_Name(self_, n):
+                            if n is here[0]:
+                                return copy.deepcopy(val)
+                            return n
+                    s = _R().visit(s)
+                    self.hit('N44')
             res.append(s)
         out = res
         # N5
